@@ -198,7 +198,16 @@ def fresh_replay(path):
     return p.returncode == 1, p.stdout.decode('utf-8', 'replace')
 
 
+def _safe_stdout():
+    try:
+        sys.stdout.reconfigure(errors='backslashreplace')
+        sys.stderr.reconfigure(errors='backslashreplace')
+    except Exception:
+        pass
+
+
 def main(argv=None):
+    _safe_stdout()
     ap = argparse.ArgumentParser()
     ap.add_argument('prop')
     ap.add_argument('--tier', default=os.environ.get('VERIF_TIER', 'quick'))
